@@ -320,7 +320,7 @@ pub fn run_case(ints: &[i64]) -> Vec<Out> {
         None => return vec![vec![99]],
     };
     let mut ex = setup(case.nc, case.nd, case.nm);
-    let inits: Arc<Vec<Entity>> = Arc::new(ex.hs.clone());
+    let inits: Arc<Vec<Entity>> = Arc::new(ex.st.hs.clone());
     let n = case.progs.len();
     let sched = Arc::new(Sched::new(n));
     let log: Arc<Mutex<Vec<i64>>> = Arc::new(Mutex::new(Vec::new()));
